@@ -244,7 +244,14 @@ func Prove(goal Form, b Bounds, facts []Fact, depth int) bool {
 			continue
 		}
 		rest := append(append([]Fact{}, facts[:i]...), facts[i+1:]...)
-		for _, k := range []int64{1, 2} {
+		ks := []int64{1, 2}
+		// multiples that cancel a shared symbol exactly
+		for s, a := range goal.T {
+			if b, ok := ft.F.T[s]; ok && b != 0 && a%b == 0 && a/b > 2 {
+				ks = append(ks, a/b)
+			}
+		}
+		for _, k := range ks {
 			g := goal.addScaled(ft.F, -k)
 			if len(g.T) > len(goal.T) {
 				continue // do not grow the goal
